@@ -41,6 +41,7 @@ type GenParams struct {
 	SkewedWide             bool     // wide keys with skewed lengths (long keys sorting first), for key-index windows
 	Keys                   []string // explicit key pool (overrides DenseKeys/NKeys)
 	HostileVals            bool     // values with hostile lengths / contents
+	BytelessPct            int      // percentage of batches that only touch the empty key with no value bytes (Del(""), Set("",""), Merge("",""))
 }
 
 // GenConfig draws a configuration for the steered engine.
@@ -301,6 +302,19 @@ func (g *genState) batch() *model.Batch {
 		} else {
 			b.DelChildren = []string{name}
 		}
+		g.tree.Apply(b, MergeFold)
+		return b
+	}
+	if !childOnly && len(g.keys) > 0 && g.keys[0] == "" && r.Intn(100) < g.gp.BytelessPct {
+		// a batch that adds no bytes at all to its segment's buffer
+		op := model.Op{Kind: 'D', Key: []byte{}}
+		if _, ok := g.tree.KV[""]; !ok || r.Chance(1, 3) {
+			op = model.Op{Kind: 'S', Key: []byte{}, Val: []byte{}}
+			if g.gp.Merge && r.Chance(1, 3) {
+				op.Kind = 'M'
+			}
+		}
+		b.Ops = []model.Op{op}
 		g.tree.Apply(b, MergeFold)
 		return b
 	}
